@@ -608,6 +608,17 @@ func body(s *simrt.Sim, tier string) {
 		nPauses = 1 + tp.Draw(3)
 		s.InjectPauses(nPauses, 2500, maxPause)
 	}
+	// Workload variant (out of band): the retry poller is slow — stalled for a
+	// few seconds at a drawn scheduling point inside its polling function —
+	// while workers go on executing and failing tasks.
+	if s.Tape.Variant%3 == 1 {
+		k := 1 + tp.Draw(3)
+		for i := 0; i < k; i++ {
+			s.ArmPauseAt("persistedretry.(*manager).pollRetries", nil, tp.Draw(8), time.Duration(500+tp.Draw(4000))*time.Millisecond)
+		}
+		nPauses += k
+		s.Probe("slow_poller_armed")
+	}
 	dests := []string{"bi-remote-a:80", "bi-remote-b:80"}
 	if w.kind == 1 {
 		rs, err := tagreplication.RemotesConfig{dests[0]: {".*"}, dests[1]: {"repo/.*"}}.Build()
